@@ -179,7 +179,7 @@ def run(tier, seed):
     rng = random.Random(seed)
     quick = tier == "quick"
     ds1 = list(range(2, 9))
-    ds2 = [2, 3, 4] if quick else [2, 3, 4, 5, 6]
+    ds2 = [2, 3, 4] if quick else [2, 3, 4, 5, 6, 7, 8]
     maxlen = 3
     sent_specs = [(1, d, 3) for d in range(2, 9)] + [(2, d, 2) for d in ds2] + [(3, 2, 2), (3, 3, 2)]
     extras = random_sentences(rng, 60 if quick else 400, sent_specs)
